@@ -24,13 +24,19 @@ def match(exp, obs, step, rec, prev):
     """Verdict projection: byte list after the call, answer class, returned bytes."""
     wrapped = bool(prev and prev.get("dbg") and prev["dbg"]["off"] + prev["dbg"]["len"] > prev["dbg"]["max"])
     a, arg = step["a"], step.get("arg") or {}
+    if wrapped and ((a in ("qpop", "qshift") and arg.get("buf") == 0 and obs.get("ret") == "refused")
+                    or (a == "find" and obs.get("ret") == "unsupported")):
+        # Refusal the statement permits on a wrapped queue (no caller buffer / element across the border).  Whether the
+        # real queue is wrapped depends on its storage offsets, which the byte-list meaning does not fix: the content
+        # must be what it was before the call; the model may have answered the call, so the comparison ends here.
+        before = (prev.get("obs") or {}).get("content")
+        if obs.get("content") != before:
+            return "content: refused call changed the content from %s to %s" % (before, obs.get("content"))
+        return vlib.STOP
     if obs.get("content") != exp.get("content"):
         return "content: expected %s, observed %s" % (exp.get("content"), obs.get("content"))
     if exp["ret"] == "any":
         return None
-    if wrapped and ((a in ("qpop", "qshift") and arg.get("buf") == 0 and obs.get("ret") == "refused")
-                    or (a == "find" and obs.get("ret") == "unsupported")):
-        return None  # permitted refusal on a wrapped queue (content compared above)
     if obs.get("ret") != exp["ret"]:
         return "ret: expected %s, observed %s" % (exp["ret"], obs.get("ret"))
     if obs.get("out") != exp.get("out"):
@@ -238,7 +244,7 @@ def run(tier):
     ck.add_tlc(res, "exhaustive " + cfg["mc"])
 
     # 2. binding A: every transition of the control skeleton replayed into the real code
-    gen = vlib.tlc("Gen_Queue", cfg["gen"], workers=4)
+    gen = vlib.tlc("Gen_Queue", cfg["gen"], workers=1)   # one worker: the exported paths are reproducible
     if gen.error or gen.violation:
         raise vlib.MachineryError("behaviour export failed: %s %s" % (gen.error, gen.violation))
     behs = vlib.parse_behaviours(gen.out)
